@@ -399,7 +399,7 @@ fn table_sexp(t: &Table) -> String {
 /// Runs the pipeline stage by stage through the hooks, printing every
 /// intermediate value up to the first error.  A panic in a stage is printed
 /// in place of that stage's value.
-fn do_stages(src: &str) -> String {
+fn do_stages_inner(src: &str) -> String {
     let mut parts: Vec<String> = vec![];
     let finish = |parts: Vec<String>| format!("(stages {})", parts.join(" "));
 
@@ -473,6 +473,51 @@ fn do_stages(src: &str) -> String {
     let text = stage!(hooks::table_to_rust(&table, &validated, src));
     parts.push(format!("(text {})", hex(&text.0)));
     finish(parts)
+}
+
+/// The stage-by-stage run, followed by a check of the glue: `kiki::generate` (the public entry point,
+/// lib.rs) must return exactly what the composition of the stages returns — the same text, or the same
+/// error.  A difference is appended as `(glue-mismatch <what generate returned>)`; the model never
+/// prints such a part, so it surfaces as a disagreement.
+fn do_stages(src: &str) -> String {
+    let staged = do_stages_inner(src);
+    let public = guarded(|| do_generate(src));
+    let body = &staged[..staged.len() - 1]; // without the closing parenthesis
+    let last = last_part(body);
+    let same = if last.starts_with("(text ") {
+        public == format!("(ok {}", &last[6..])
+    } else if last.starts_with("(panic") {
+        public.starts_with("(panic")
+    } else {
+        // the staged run ended in an error: `generate` must return that error
+        public == format!("(err {})", last)
+    };
+    if same {
+        staged
+    } else {
+        format!("{} (glue-mismatch {}))", body, hex(&public))
+    }
+}
+
+/// the last top-level part of `(stages p1 p2 … pn` (no closing parenthesis)
+fn last_part(body: &str) -> &str {
+    let bytes = body.as_bytes();
+    let mut depth = 0i32;
+    let mut start = body.len();
+    for i in (0..bytes.len()).rev() {
+        match bytes[i] {
+            b')' => depth += 1,
+            b'(' => {
+                depth -= 1;
+                if depth == 0 {
+                    start = i;
+                    break;
+                }
+            }
+            _ => {}
+        }
+    }
+    &body[start..]
 }
 
 // ---------------------------------------------------------------- generate (public API only)
